@@ -232,6 +232,13 @@ def unparse_Constant(node: Constant, qm: typing.Literal["'", '"']) -> unparse_ge
     if isinstance(node.value, str):
         value = get_unescaped_str(node.value, qm)
         return f"{qm}{value}{qm}"
+    if isinstance(node.value, bytes):
+        # use the same quotation mark as for str,
+        # so that a bytes literal inside an f-string does not reuse its quotes
+        value = "".join(
+            f"\\{qm}" if i == ord(qm) else repr(bytes([i]))[2:-1] for i in node.value
+        )
+        return f"b{qm}{value}{qm}"
     if isinstance(node.value, (float, complex)):
         # inf and nan have no literal, "inf" would be parsed as a name (same as ast.unparse)
         return (
